@@ -99,3 +99,57 @@ Lemma rtt_expect_shape :
                 | None => []
                 end) (expect (new_muxer 40) [] rtt_hist) = [[]; [ex_typed_loop]; []; []; [ex_typed_loop]; []].
 Proof. vm_compute. split; reflexivity. Qed.
+
+(* ---------------- descriptors as the caller writes them ----------------
+   op_parsed o on: the same call, except that the descriptors handed to AddElementaryStream are any list of C14's
+   domain (ops) and its parsed form (opsn).  The Muxer emits the same bytes for both histories (Proofs/RoundTripNorm.v),
+   so what the demultiplexer delivers for the history as written is [expect] of the history in parsed form: the PMTs
+   carry the descriptors as parseDescriptors returns them. *)
+Require Import Proofs.RoundTripNorm.
+
+Definition es_parsed (e en : PMTElementaryStream) : Prop :=
+  PMTElementaryStream_ElementaryPID en = PMTElementaryStream_ElementaryPID e /\
+  PMTElementaryStream_StreamType en = PMTElementaryStream_StreamType e /\
+  Forall2 wf_entry (PMTElementaryStream_ElementaryStreamDescriptors e) (PMTElementaryStream_ElementaryStreamDescriptors en).
+
+Definition op_parsed (o on : mop) : Prop :=
+  match o, on with
+  | MAdd e, MAdd en => es_parsed e en
+  | MAdd _, _ | _, MAdd _ => False
+  | _, _ => on = o
+  end.
+
+Lemma es_parsed_same e en : es_parsed e en -> es_same e en.
+Proof.
+  intros (Hp & Ht & HR). destruct (wf_entries_same _ _ HR) as (E1 & _ & E3 & E4 & _).
+  split; [exact Hp|]. split; [exact Ht|]. split; [exact E1|]. split; [exact E3|exact E4].
+Qed.
+
+Lemma op_parsed_same o on : op_parsed o on -> op_same o on.
+Proof. destruct o, on; cbn; try tauto. apply es_parsed_same. Qed.
+
+Theorem mux_written_bytes period ops opsn : Forall2 op_parsed ops opsn ->
+  snd (mux_run (new_muxer period) opsn) = snd (mux_run (new_muxer period) ops).
+Proof.
+  intros HF. apply (run_same ops opsn _ _ (srel_refl _)).
+  clear -HF. induction HF; constructor; [apply op_parsed_same; assumption|assumption].
+Qed.
+
+Theorem roundtrip_history_written period ops opsn :
+  Forall2 op_parsed ops opsn -> history_ok typed_desc (new_muxer period) opsn ->
+  demux_all (concat (map mout_bytes (snd (mux_run (new_muxer period) ops)))) = map Ok (expect (new_muxer period) [] opsn).
+Proof. intros HF Hok. rewrite <- (mux_written_bytes period ops opsn HF). apply roundtrip_history_typed. exact Hok. Qed.
+
+(* the example history with the descriptors as a caller may write them (wrong Length fields, a stray body) *)
+Definition rtt_es_written : PMTElementaryStream :=
+  {| PMTElementaryStream_ElementaryPID := 257;
+     PMTElementaryStream_ElementaryStreamDescriptors := ex_typed_written;
+     PMTElementaryStream_StreamType := C_StreamTypeH264Video |}.
+Definition rtt_hist_written : list mop :=
+  [MAdd rtt_es_written; MSetPCR 257; MWriteData (rt_data 90000 300); MWriteData (rt_data 93600 500); MWriteTables].
+
+Lemma rtt_hist_parsed : Forall2 op_parsed rtt_hist_written rtt_hist.
+Proof.
+  unfold rtt_hist_written, rtt_hist. repeat (apply Forall2_cons; [try reflexivity|]); [|apply Forall2_nil].
+  split; [reflexivity|]. split; [reflexivity|exact ex_typed_entries].
+Qed.
